@@ -194,6 +194,54 @@ theorem witness_fixed_tail_wakes :
     r.1 = .pending ∧ r.2.2.woken = true := by
   decide
 
+/-! ### buffered requests behind a full pipeline queue are decoded once the queue drains -/
+
+/-- **C04_tail_resumes_decoding.** (fixed code) If `poll_request` was refused at the start of a
+poll because the pipeline queue was full (`pipelineWasFull`), the tail of `Dispatcher::poll` does
+not return `Pending` without a wake-up request while the queue has room again, input is still
+buffered and the read half is open: the buffered requests are decoded by the next poll instead
+of waiting for a socket event that a peer which has sent everything will never cause. -/
+theorem C04_tail_resumes_decoding (e : Env) (full : Bool) (d d' : D) (w w' : World)
+    (hfix : e.cfg.fixed = true) (h : normalTail e full true d w = .ret .pending d' w')
+    (hw : w'.woken = false) :
+    ¬(d'.messages.length < Consts.h1MaxPipelined ∧ d'.rb > 0 ∧ d'.flags.readDisc = false) := by
+  obtain ⟨_, _, _, _, hp⟩ := normalTail_ret _ _ _ _ _ _ _ _ h
+  have := ((hp rfl hw).2.2 hfix).2
+  intro hc
+  exact this ⟨rfl, hc⟩
+
+/-- 20 tiny requests; the first 17 arrived while handler 0 was Pending (1 in service + 16 queued),
+the last 3 (93 bytes) arrived when the queue was already full and sit undecoded in `read_buf`;
+all handlers are now Ready at first poll; the peer has sent everything and stays silent -/
+def queueReq : Req := { headLen := 31, body := .none, hsteps := [], resp := .zero, csteps := [] }
+
+def queueD : D :=
+  { flags := { started := true }
+    st := .service { rid := 0, steps := [], hasPl := false }
+    messages := (List.range 16).map fun i => .item (i + 1) false false
+    rb := 93, pendSegs := [.head 17 31 .none, .head 18 31 .none, .head 19 31 .none]
+    codecClose := false }
+
+def queueW : World := { rops := [.silent], chans := List.replicate 20 {} }
+
+def queueEnv (fixed : Bool) : Env := { cfg := { fixed := fixed }, reqs := List.replicate 20 queueReq }
+
+/-- **witness_unfixed_queue_sleeps.** Before the fix: all 17 started requests are answered in this
+one poll (no handler returns `Pending`, so the nested `poll_request` never runs), the poll returns
+`Pending` without a wake-up request, the queue is empty, 93 bytes = 3 complete requests are still
+buffered, the read half is open — and only the (silent) socket could wake the task. -/
+theorem witness_unfixed_queue_sleeps :
+    let r := pollTop (queueEnv false) 64 queueD queueW
+    r.1 = .pending ∧ r.2.2.woken = false ∧ r.2.2.calls = 16 ∧ r.2.1.messages.length = 0 ∧
+    r.2.1.rb = 93 ∧ r.2.1.flags.readDisc = false ∧ r.2.1.flags.shutdown = false := by
+  decide
+
+/-- with the fix the same poll asks to be polled again -/
+theorem witness_fixed_queue_wakes :
+    let r := pollTop (queueEnv true) 64 queueD queueW
+    r.1 = .pending ∧ r.2.2.woken = true ∧ r.2.1.rb = 93 := by
+  decide
+
 /-- **C04_pending_registers_linger.** A `Pending` poll that ends in linger mode (discarding the
 unread request body before closing) without a self-wake waits on a registered source: the flush
 (write side), or the socket's read side, or the read half is closed (then only the shutdown
@@ -268,7 +316,7 @@ theorem C04_pending_registers_linger (e : Env) (F : Nat) (d d' : D) (w w' : Worl
               · split at h
                 · next r d4 w4 hn =>
                   simp at h; obtain ⟨rfl, rfl, rfl⟩ := h
-                  obtain ⟨_, _, _, _, hp4⟩ := normalTail_ret _ _ _ _ _ _ _ hn
+                  obtain ⟨_, _, _, _, hp4⟩ := normalTail_ret _ _ _ _ _ _ _ _ hn
                   have := (hp4 rfl hw).1
                   rw [this] at hl; cases hl
                 · exact ih _ _ h
@@ -345,7 +393,7 @@ theorem C04_pending_registers_shutdown (e : Env) (F : Nat) (d d' : D) (w w' : Wo
               · split at h
                 · next r d4 w4 hn =>
                   simp at h; obtain ⟨rfl, rfl, rfl⟩ := h
-                  obtain ⟨_, _, _, _, hp4⟩ := normalTail_ret _ _ _ _ _ _ _ hn
+                  obtain ⟨_, _, _, _, hp4⟩ := normalTail_ret _ _ _ _ _ _ _ _ hn
                   have := (hp4 rfl hw).2.1
                   rw [this] at hs; cases hs
                 · exact ih _ _ h
